@@ -293,6 +293,10 @@ UNITS["C03"] = [
 ]
 
 UNITS["C10"] = [
+    dict(kind="verus", name="c10_batch_dedup", template="specs/c10_batch_dedup.vrs",
+         under_contract=["frag_batch_dedup"], vacuity=["frag_batch_dedup"],
+         trusted=["std HashSet::insert returns false iff an equal key is already present", "Option<&T>::cloned copies the referenced value"],
+         assumptions=["fragment = the in-batch duplicate test of process_multiple_changes (`let versions … if !seen.insert(KEY) { continue; }`); the obligation is on KEY: derived from this changeset and identifying exactly one (actor, version range, seq range) triple; key components that are single versions / seqs pin one end only"]),
     dict(kind="structural", name="c10_sql_scoping", check="sql_actor_scoping", file="crates/klukai-agent/src/agent/util.rs",
          trusted=["heuristic SQL reading (see c03_sql_scoping): buffered chunks of one actor are never deleted or rewritten by a statement selecting on another actor's (version, seq)"]),
     dict(kind="structural", name="c10_apply_trigger", check="apply_trigger_waits", file="crates/klukai-agent/src/agent/util.rs", fn="process_multiple_changes",
